@@ -2,7 +2,7 @@
 from collections import Counter
 from vlib import sqldiff
 from vlib.enumr import multisets, rotate
-from .common import table, chunks
+from .common import table, chunks, F
 
 LEVEL = 'exploration'
 
@@ -92,21 +92,40 @@ def run(rep):
                     st.append(s2)
                 # nested once on either side with table m
                 for op2, all2 in ops:
-                    if quick and (all2 != allq):
-                        continue
                     q2 = ' ALL' if all2 else ''
                     mrows = db['tables'][2]['rows']
                     inner = setop(op, allq, l, r)
                     st.append({'sql': '(%s) %s%s SELECT %s FROM m' % (sql, op2, q2, cl),
                                'expect_rows': setop(op2, all2, inner, mrows), 'tag': 'nested-left',
                                'alt_rows': nested_alts(op, allq, op2, all2, l, r, mrows, True)})
+                    if op in ('UNION', 'EXCEPT') and op2 in ('UNION', 'EXCEPT'):
+                        # the same composition written as an unparenthesized chain (equal precedence, left-associative)
+                        st.append({'sql': '%s %s%s SELECT %s FROM m' % (sql, op2, q2, cl), 'expect_rows': setop(op2, all2, inner, mrows), 'tag': 'chain',
+                                   'alt_rows': nested_alts(op, allq, op2, all2, l, r, mrows, True)})
                     inner_r = setop(op, allq, r, l)
                     st.append({'sql': 'SELECT %s FROM m %s%s (SELECT %s FROM r %s%s SELECT %s FROM l)' % (cl, op2, q2, cl, op, q, cl),
                                'expect_rows': setop(op2, all2, mrows, inner_r), 'tag': 'nested-right',
                                'alt_rows': nested_alts(op, allq, op2, all2, r, l, mrows, False)})
+            if ncol == 1:
+                # branches of different numeric types (the result takes the common type; 1 and 1.0 are one value) and select lists that
+                # repeat a column name (de-duplication is positional)
+                fmap = {None: None, 1: F('1.0'), 2: F('1.5')}
+                fr = [[fmap[v[0]]] for v in r]
+                frv = [[None if v[0] is None else float(fmap[v[0]][1])] for v in r]
+                db['tables'].append(table('fr', [['x', 'float64']], fr))
+                for allq in (False, True):
+                    q = ' ALL' if allq else ''
+                    st.append({'sql': 'SELECT x FROM l UNION%s SELECT x FROM fr' % q, 'expect_rows': setop('UNION', allq, l, frv), 'tag': 'mixed-types', 'approx': True})
+                    st.append({'sql': 'SELECT x FROM fr UNION%s SELECT x FROM l' % q, 'expect_rows': setop('UNION', allq, frv, l), 'tag': 'mixed-types', 'approx': True})
+                    inc = lambda v: None if v is None else v + 1
+                    ll = [[v[0], v[0]] for v in l]
+                    rr = [[inc(v[0]), v[0]] for v in r]
+                    st.append({'sql': 'SELECT x, x FROM l UNION%s SELECT x + 1, x FROM r' % q, 'expect_rows': setop('UNION', allq, ll, rr), 'tag': 'repeated-column-name'})
+                    st.append({'sql': 'SELECT x AS c, x + 1 AS c FROM l UNION%s SELECT x, x FROM r' % q,
+                               'expect_rows': setop('UNION', allq, [[v[0], inc(v[0])] for v in l], [[v[0], v[0]] for v in r]), 'tag': 'repeated-column-name'})
             units.append({'db': db, 'stmts': st})
     rep.rule = ('all pairs of inputs with <= 3 rows over {NULL,1,2} (%s) x UNION/INTERSECT/EXCEPT x DISTINCT/ALL, with ORDER BY+LIMIT and '
-                'nested once on either side; oracle = Counter (multiset) arithmetic with NULLs not distinct, SQLite cross-checks the non-ALL forms; '
+                'nested once on either side with every second operator and quantifier (parenthesized, and as an unparenthesized chain for UNION/EXCEPT), UNION of BIGINT with DOUBLE branches, and select lists repeating a column name; oracle = Counter (multiset) arithmetic with NULLs not distinct, SQLite cross-checks the non-ALL forms; '
                 'non-trivial = some input row exists' % ('1 column' if quick else '1 and 2 columns'))
     sqldiff.run(rep, units)
 
